@@ -182,6 +182,8 @@ mod peer_connection_service;
 mod security;
 mod signature_verification_service;
 mod synchronisation;
+#[cfg(feature = "verif")]
+pub mod verif_hooks;
 
 use thiserror::Error;
 
